@@ -13,6 +13,7 @@ inputs and of the prover-supplied hint `h = some (flag, y)`; the first component
   gadget means the native specification decodes s, to the point the gadget outputs.  FULL STATEMENT (no side
   condition) is false: `decode_unsound_at_minus_one` exhibits the satisfying forged hint at s = q - 1.
 -/
+import Decaf.BuildsCmd
 import Decaf.Lemmas.RoundTrip
 import Decaf.Model.R1cs
 
@@ -176,3 +177,7 @@ theorem minus_one_is_rejected_natively {sr : SR} (h : SRContract sr) (bytes : Li
       rw [hs]; ring
 
 end C14
+
+/-! ### the statements for the two shipped routines -/
+instantiate_builds C14.decompress_sound_native
+instantiate_builds C14.minus_one_is_rejected_natively
